@@ -101,7 +101,8 @@ def corpus_cases():
     cases = hist.matrix_cases("c07", ["alt_mem", "alt_phys", "alt_alt", "alt_ovl"], root_removal=True) + \
         hist.dotted_name_cases("c07", ["alt_mem", "alt_phys", "alt_alt", "alt_ovl", "alt_root"]) + \
         hist.neighbour_name_cases("c07", ["alt_mem", "alt_phys", "alt_alt", "alt_root"]) + \
-        hist.open_handle_cases("c07", ["alt_mem", "alt_phys", "alt_alt", "alt_root"])
+        hist.open_handle_cases("c07", ["alt_mem", "alt_phys", "alt_alt", "alt_root"]) + \
+        hist.odd_join_cases("c07", ["alt_mem", "alt_phys", "alt_alt", "alt_ovl"])
     for c in cases:
         c.first_watch = {}
     return cases
